@@ -121,7 +121,7 @@ func RuleListen(r *Report, p *Program) {
 	}
 	{
 		w := NewWalker(p)
-		w.Inline = func(f *ssa.Function, d int) bool { return false }
+		w.Inline = inlineHelpers([]*ssa.Package{p.SSAPkg("uhppote")}, nil)
 		paths := w.Walk(handler, []*Term{{Op: "param", Name: "dg", Typ: handler.Params[0].Type()}}, nil)
 		bad := ""
 		nFwd := 0
@@ -447,24 +447,12 @@ func RuleListen(r *Report, p *Program) {
 		if !sf.Listen {
 			continue
 		}
-		mcs := closuresOf(sf.Fn)
 		var waiter, reader *ssa.Function
-		for _, mc := range mcs {
-			f := mc.Fn.(*ssa.Function)
-			reads := false
-			for _, b := range f.Blocks {
-				for _, in := range b.Instrs {
-					if c, ok := in.(ssa.CallInstruction); ok {
-						if cal := c.Common().StaticCallee(); cal != nil && strings.HasPrefix(cal.Name(), "Read") {
-							reads = true
-						}
-					}
-				}
-			}
-			if reads {
-				reader = f
+		for _, gt := range goTargetsIn(sf.Fn) {
+			if readsSocket(gt.Fn) {
+				reader = gt.Fn
 			} else {
-				waiter = f
+				waiter = gt.Fn
 			}
 		}
 		if waiter == nil || reader == nil {
@@ -474,9 +462,9 @@ func RuleListen(r *Report, p *Program) {
 		// waiter: recv(signal) precedes Close
 		{
 			w := NewWalker(p)
-			w.Inline = func(f *ssa.Function, d int) bool { return false }
+			w.Inline = inlineHelpers([]*ssa.Package{p.SSAPkg("uhppote")}, nil)
 			bad := ""
-			for _, pa := range w.Walk(waiter, nil, nil) {
+			for _, pa := range w.Walk(waiter, symbolicArgs(waiter), nil) {
 				ri, ci := -1, -1
 				for i, e := range pa.Events {
 					if e.Kind == "recv" && ri < 0 {
@@ -495,10 +483,10 @@ func RuleListen(r *Report, p *Program) {
 		{
 			w := NewWalker(p)
 			w.LoopFuel = 2
-			w.Inline = func(f *ssa.Function, d int) bool { return false }
+			w.Inline = inlineHelpers([]*ssa.Package{p.SSAPkg("uhppote")}, nil)
 			bad := ""
 			nRet := 0
-			for _, pa := range w.Walk(reader, nil, nil) {
+			for _, pa := range w.Walk(reader, symbolicArgs(reader), nil) {
 				for i, e := range pa.Events {
 					if e.Kind == "call" && strings.HasPrefix(e.Name, "dyn:") {
 						// handler call: its argument must be a slice of the buffer just read into, bounded by the read count
